@@ -416,7 +416,10 @@ func (ex *exec) conv(t_dst, t_src types.Type, x value) value {
 					if txt, okc := jb.concreteText(); okc {
 						return txt
 					}
-					return symv{ex.freshVar("jsontext", sString)}
+					// opaque text that remembers which JSON value it is the text of
+					t := ex.freshVar("jsontext", sString)
+					ex.blobOf[t] = jb
+					return symv{t}
 				}
 			}
 		}
@@ -455,6 +458,9 @@ func (ex *exec) conv(t_dst, t_src types.Type, x value) value {
 	}
 	if sl, okb := ut_dst.(*types.Slice); okb && sx.T.S.K == 'S' {
 		if bb, ok2 := sl.Elem().Underlying().(*types.Basic); ok2 && bb.Kind() == types.Byte {
+			if jb, known := ex.blobOf[sx.T]; known {
+				return []value{jb}
+			}
 			// []byte(symbolic string): opaque byte blob carrying the string
 			return []value{&jsonBlob{rawStr: sx.T}}
 		}
